@@ -40,7 +40,7 @@ TRUSTED = ["sha256, nfkd, str.lower are oracles answered by hashlib / unicodedat
 ASSUMPTIONS = ["|sha256 x| = 32 and its bytes are < 256",
                "every word of the nine lists is a fixed point of str.lower followed by NFKD (checked exhaustively "
                "each run: function wordlist_normal_form)"]
-BUDGET = {"quick": 170, "thorough": 1500}
+BUDGET = {"quick": 170, "thorough": 800}
 
 
 # ------------------------------------------------------------------ implementation wrappers
